@@ -27,7 +27,7 @@ VARIABLES tid,    \* index of the current trace
           cok     \* the composition chain is still within the supported arithmetic range
 vars == <<tid, l, vol, comp, hn, wl, live, cok>>
 
-HdrT(tr) == [dev |-> tr.dev, unitc |-> tr.unitc, k |-> tr.k, wlmax |-> tr.wl.maxv, wlmaxc |-> tr.wl.maxc,
+HdrT(tr) == [dev |-> tr.dev, unitc |-> tr.unitc, millis |-> tr.millis, k |-> tr.k, wlmax |-> tr.wl.maxv, wlmaxc |-> tr.wl.maxc,
              autosplit |-> tr.wl.autosplit, diti |-> tr.wl.diti, lw |-> tr.lw]
 
 EmptyComp(tr) == [k \in 1..Len(tr.lw) |-> [i \in 1..Len(tr.lw[k].init.vol) |-> {}]]
@@ -126,9 +126,13 @@ Common(tr, T, ev) ==
 WellsValid(g, ws) == \A i \in 1..Len(ws) : ValidWell(g, ws[i])
 
 \* the A or D records of one aspirate/dispense call, as a bag of <<position, cents>>
+\* Volume of a record in hundredths of a microlitre.  In "millis" traces one unit is a thousandth of a
+\* microlitre and the record carries the volume rounded to two decimals (third decimals of 5 are not generated).
+RecCents(T, v) == IF T.millis THEN (v + 5) \div 10 ELSE v * T.unitc
+
 ExpectedAD(T, k, P) ==
   LET idx == SelectSeq([i \in 1..Len(P.ws) |-> i], LAMBDA i : P.vs[i] > 0) IN
-  [j \in 1..Len(idx) |-> <<Pos(T.dev, T.lw[k].g, P.ws[idx[j]]), P.vs[idx[j]] * T.unitc>>]
+  [j \in 1..Len(idx) |-> <<Pos(T.dev, T.lw[k].g, P.ws[idx[j]]), RecCents(T, P.vs[idx[j]])>>]
 
 LabelOK(e, label) == e.h = label.h /\ (label.h => e.l = label.l)
 
@@ -169,6 +173,15 @@ JudgeLabwareOp(tr, T, ev) ==
     Cl("C01.address", viaWl /\ F.records /\ ev.out = "ok" /\ valid,
        /\ \A i \in 1..Len(pips) : pips[i].t = tag /\ pips[i].rack = L.name
        /\ SameBag([i \in 1..Len(pips) |-> <<pips[i].pos, pips[i].cents>>], ExpectedAD(T, k, P))),
+    \* two-decimal rounding: what the robot moves differs from the twin by at most half a hundredth per record
+    Cl("C01.rounding", viaWl /\ T.millis /\ F.records /\ ev.out = "ok" /\ valid,
+       \A i \in 1..Len(post.vol[k]) :
+          LET mine == {j \in 1..Len(pips) : pips[j].pos >= 1 /\ pips[j].pos <= NPos(T.dev, L.g) /\ CavOfPos(T.dev, L.g, pips[j].pos) = i}
+              moved == LET RECURSIVE Sm(_)
+                           Sm(X) == IF X = {} THEN 0 ELSE LET j == CHOOSE x \in X : TRUE IN pips[j].cents + Sm(X \ {j})
+                       IN Sm(mine)
+              delta == IF isAdd THEN post.vol[k][i] - vol[k][i] ELSE vol[k][i] - post.vol[k][i]
+          IN Abs(moved * 10 - delta) <= 5 * Cardinality(mine)),
     Cl("C09.kwargs", viaWl /\ F.records /\ ev.out = "ok" /\ KwValid(a.kw),
        LET kv == KwValues(a.kw) IN
        \A i \in 1..Len(pips) : /\ pips[i].lc = kv.lc /\ pips[i].tip = kv.tip /\ pips[i].rackid = kv.rackid
